@@ -22,8 +22,8 @@ from mc.lattice import chunked
 from mc.ref import queryeval as Q
 
 BOUNDS = {
-    "quick": {"arg_shapes": 15, "calls": "all calls of the probe functions with 0-3 arguments over the 15 shapes (3616)", "contexts": 8, "styles": "all 40 separator-spacing styles (none/space/newline before/after each of , : = ;) for the whole product", "literals": "all list/dict literals of depth <=2 over 3 atoms with <=2 entries", "builtins": "every registered function x argument pools x {literal, variable, nested call} forms"},
-    "thorough": {"calls4": "all calls with 4 arguments over the 15 shapes (50 625) in 3 contexts x 3 styles", "literals": "depth 3 with <=2 entries over 2 atoms (sampled exhaustively by structure)", "rest": "as quick"},
+    "quick": {"arg_shapes": "35 (15 base shapes + 5 special strings wrapped in list / nested list followed by an element / dict value / dict key)", "calls": "all calls of the probe functions with 0-3 arguments over the 35 shapes (44 136)", "contexts": 12, "styles": "all 40 separator-spacing styles (none/space/newline before/after each of , : = ;) for calls with <=2 arguments, 3 styles x 6 contexts for 3 arguments", "literals": "all list/dict literals of depth <=2 over 3 atoms with <=2 entries", "builtins": "every registered function x argument pools x {literal, variable, nested call} forms"},
+    "thorough": {"styles": "all 40 styles also for 3-argument calls", "calls4": "all calls with 4 arguments over the 15 base shapes (50 625) in 3 contexts x 3 styles", "literals": "depth 3 with <=2 entries over 2 atoms (sampled exhaustively by structure)", "rest": "as quick"},
 }
 RULE = (
     "programs enumerated from the grammar as listed in bounds; each is printed, re-parsed by the reference parser to the same AST, run through aw_query.query2.query and through the reference evaluator; "
@@ -179,10 +179,27 @@ def shapes():
         ("call0", ("call", "nop", ())),
         ("call1", ("call", "id1", (("int", 1),))),
         ("var", ("var", "v")),
-    ]
+    ] + wrapped_strings()
 
 
-CONTEXTS = ("top", "list-elem", "list-mid", "dict-val", "arg-of-call", "arg-of-call-first", "bound-then-returned", "rebound-and-aliased")
+def wrapped_strings():
+    """strings holding separator / bracket / quote characters INSIDE lists, nested lists, dict
+    values and dict keys (a seeded scanner fault only showed for an escaped quote inside a list
+    that is nested and followed by another element)"""
+    S = lambda t, qq='"': ("str", t, qq)
+    out = []
+    for nm, s in (("escq", S('q"r')), ("escsq", S("it's", "'")), ("comma", S("a,b")), ("rbr", S("a]b)c}")), ("lbr", S("({["))):
+        out.append((f"list[{nm}]", ("list", (s,))))
+        out.append((f"list[[{nm}],2]", ("list", (("list", (s,)), ("int", 2)))))
+        out.append((f"dict-val-{nm}", ("dict", (("k", s), ("z", ("int", 1))))))
+        out.append((f"dict-key-{nm}", ("dict", ((s[1], ("list", (s,))),))))
+    return out
+
+
+CONTEXTS = ("top", "list-elem", "list-mid", "dict-val", "arg-of-call", "arg-of-call-first", "bound-then-returned", "rebound-and-aliased", "return-rebound", "return-then-more", "return-uses-itself", "return-then-error")
+
+
+CONTEXTS3 = ("top", "dict-val", "arg-of-call-first", "rebound-and-aliased", "return-rebound", "return-then-error")
 
 
 def in_context(call, ctx):
@@ -203,6 +220,14 @@ def in_context(call, ctx):
         return pre + (("x", call), ("RETURN", ("var", "x")))
     if ctx == "rebound-and-aliased":
         return pre + (("x", ("int", 1)), ("x", call), ("y", ("var", "x")), ("x", ("int", 2)), ("RETURN", ("list", (("var", "x"), ("var", "y")))))
+    if ctx == "return-rebound":
+        return pre + (("RETURN", ("int", 1)), ("RETURN", call))
+    if ctx == "return-then-more":
+        return pre + (("RETURN", call), ("x", ("int", 3)), ("y", ("call", "id1", (("var", "x"),))))
+    if ctx == "return-uses-itself":
+        return pre + (("RETURN", call), ("RETURN", ("call", "args2", (("var", "RETURN"), ("var", "v")))))
+    if ctx == "return-then-error":
+        return pre + (("RETURN", call), ("x", ("call", "no_such_function", ())))
     raise ValueError(ctx)
 
 
@@ -296,7 +321,7 @@ def _unit_args4(args):
     styles = [s for s in Q.all_styles() if s[0] in style_names]
     u = Unit()
     shp = shapes()
-    for rest in itertools.product(range(len(shp)), repeat=2):
+    for rest in itertools.product(range(15), repeat=2):
         call = ("call", "args4", tuple(shp[i][1] for i in (f, g) + rest))
         for c in ctxs:
             u.states += 1
@@ -438,10 +463,10 @@ def run(ctx):
     units.append(("args", (None, 1, CONTEXTS, sty)))
     for f in range(nshape):
         units.append(("args", (f, 2, CONTEXTS, sty)))
-        units.append(("args", (f, 3, CONTEXTS, sty)))
+        units.append(("args", (f, 3, CONTEXTS if ctx.thorough else CONTEXTS3, sty if ctx.thorough else ("compact", "spaced", "newlines"))))
     if ctx.thorough:
-        for f in range(nshape):
-            for g in range(nshape):
+        for f in range(15):
+            for g in range(15):
                 units.append(("args4", (f, g, ("top", "dict-val", "rebound-and-aliased"), ("compact", "spaced", "newlines"))))
     lits = literals(2, [("int", 1), ("str", "s", '"'), ("var", "v")], 2)
     if ctx.thorough:
